@@ -135,6 +135,7 @@ def run(ctx):
     placeholder_guard(ctx, "R01-d")
     float_dot_siblings(ctx, "R01-e")
     singleton_tuple_comma(ctx, "R01-f")
+    special_macro_parsers_check_tokens(ctx, "R01-g")
     C = r.rule("R01-c", "no defaulted sub-rewrite: a RewriteResult / Option<String> returned by a Rewrite method is never turned into "
                         "an empty string (unwrap_or_default, unwrap_or(String::new()), unwrap_or_else(|_| String::new()))")
     latent = {e["fn"]: e["reason"] for e in tab.get("defaulted", [])}
@@ -327,3 +328,29 @@ def singleton_tuple_comma(ctx, rid):
                             % ([(k[-40:], v) for k, v in path.decisions if "tracing" not in k and "Level" not in k][:4], short(ret)[:120]),
                             ["%s:%d" % (f.file, f.line)])
     r.floor(rid, n, 2, "singleton paths of the tuple rewriters")
+
+
+def special_macro_parsers_check_tokens(ctx, rid):
+    """R01-g: a special-cased macro body is re-printed from parsed pieces only if every token the printer will emit was there"""
+    from common import bool_branches
+    p, r = ctx.p, ctx.r
+    r.rule(rid, "parse::macros::lazy_static::parse_lazy_static: the bool result of every Parser::eat_keyword / Parser::eat feeds a "
+                "branch (a missing `static`, `ref`, `:` or `=` rejects the special case) — the only result that may be discarded is "
+                "that of the last eat of an item, its terminating `;`; format_lazy_static prints all of these tokens unconditionally, "
+                "so an unchecked one is *added* to the program")
+    f = p.named("parse_lazy_static")
+    if f is None:
+        r.undecidable(rid, "parse_lazy_static not found")
+        return
+    eats = [c for c in f.calls() if c.name.startswith("rustc_parse::parser::Parser") and c.name.rsplit("::", 1)[-1] in ("eat", "eat_keyword", "eat_keyword_noexpect", "check", "check_keyword")]
+    dom = f.dominators()
+    unused = [c for c in eats if not bool_branches(f, c.dest[0])]
+    last = [c for c in eats if all(o.bb in dom.get(c.bb, ()) for o in eats)]
+    bad = [c for c in unused if c not in last]
+    r.instance(rid, "parse_lazy_static: %d token tests, %d discarded" % (len(eats), len(unused)), "ok" if not bad else "violation",
+               "%s:%d" % (f.file, f.line))
+    for c in bad:
+        r.violation(rid, "parse_lazy_static discards the result of %s" % c.name.rsplit("::", 1)[-1],
+                    "whether the token was present is ignored, but the printer emits it: `lazy_static! { pub FOO: u32 = 1; }` "
+                    "comes out as `pub static ref FOO: u32 = 1;`", [c.loc()])
+    r.floor(rid, len(eats), 4, "Parser::eat* calls in parse_lazy_static")
